@@ -77,6 +77,10 @@ def shapes(tier, focus="C14"):
             out.append({"mode": "api", "N": N, "req": 2, "init": 1, "growth": 128, "n_lin": 1, "maxprior": N - 1, "randomize": False,
                         "src": "object", "in_memory": inmem, "n_batches": None})
     if focus == "C14":
+        # a budget LARGER than the library does not enlarge the library: too-small libraries must still raise
+        for inmem, srck in ((True, "object"), (False, "object"), (True, "packed"), (False, "filename")):
+            out.append({"mode": "api", "N": 2, "req": 1, "init": 3, "growth": 128, "n_lin": 1, "maxprior": 5, "randomize": False, "src": srck, "in_memory": inmem, "n_batches": None})
+            out.append({"mode": "api", "N": 3, "req": 2, "init": 1, "growth": 128, "n_lin": 1, "maxprior": 5, "randomize": False, "src": srck, "in_memory": inmem, "n_batches": None})
         # the in-memory path also accepts an already packed array: same budget, same too-small rule
         for N, mp_, init in ((3, 2, 1), (4, 2, 1), (3, 1, 2), (4, 3, 2)):
             out.append({"mode": "api", "N": N, "req": 1 if mp_ == 1 else 2, "init": init, "growth": 128, "n_lin": 1, "maxprior": mp_, "randomize": False,
@@ -167,7 +171,7 @@ def run_harness(S, shape, logprobs=False):
         pool = env.Pool(w, size=1, order="reversed")
         joker = TJ(S.JokerPrior(S), pool=pool, rng=rng)
         data = types.SimpleNamespace(t_ref=units.Time(core.real("t_ref")))
-        src = S.as_packed(lib) if shape["src"] == "packed" else S.as_samples(lib, lnp)
+        src = S.as_packed(lib) if shape["src"] == "packed" else (S.as_file(lib, lnp) if shape["src"] == "filename" else S.as_samples(lib, lnp))
         out = joker.iterative_rejection_sample(data, src, n_requested_samples=req, max_prior_samples=shape["maxprior"], n_linear_samples=nlin,
                                                return_logprobs=logprobs, n_batches=shape["n_batches"], randomize_prior_order=shape["randomize"],
                                                init_batch_size=shape["init"], growth_factor=shape["growth"], in_memory=shape["in_memory"])
@@ -304,7 +308,9 @@ def _spec(sink, path, S, shape, info, focus, logprobs):
     if focus == "C14":
         # budget + each library row at most once + contiguous in the (shuffled) order
         within = E <= info["budget"] and ok_proto and len(rows) == E
-        sink.check(path, "budget", core.SB(z3.BoolVal(within)), site=shape["mode"] + ".budget", describe=desc)
+        # (a structural claim: ask for a model with pairwise distinguishable library rows, so that the replay can tell rows apart)
+        pref0 = [core.lift(r_[0]) == 2 + i for i, r_ in enumerate(lib)] + [core.lift(l_) == -i for i, l_ in enumerate(groupa.ll_of(r_) for r_ in lib) if core.is_sym(l_)]
+        sink.check(path, "budget", core.SB(z3.BoolVal(within)), site=shape["mode"] + ".budget", describe=desc, prefer=pref0)
         if not within:
             return
         same = [core.lift(ev[j][c] == rows[j][c]) for j in range(E) for c in range(5)]
@@ -484,7 +490,7 @@ def replay(cand, focus="C14"):
                 try:
                     joker = TheJoker.__new__(TheJoker)
                     joker.pool, joker.rng, joker.prior = schwimmbad.SerialPool(), rng, object.__new__(thejoker.JokerPrior)
-                    src_ = prior.pack(units=helper.internal_units, names=helper.packed_order)[0] if shape.get("src") == "packed" else prior
+                    src_ = prior.pack(units=helper.internal_units, names=helper.packed_order)[0] if shape.get("src") == "packed" else (fn if shape.get("src") == "filename" else prior)
                     out = joker.iterative_rejection_sample(None, src_, n_requested_samples=req, max_prior_samples=shape["maxprior"],
                                                            n_linear_samples=nlin, return_logprobs=logprobs, n_batches=shape["n_batches"],
                                                            randomize_prior_order=shape["randomize"], init_batch_size=shape["init"],
